@@ -125,6 +125,11 @@ def build(case):
                 line.heights = np.asarray(line.heights, dtype=np.float64)
             elif l["seed"] % 3 == 1:
                 line.heights = tuple(line.heights)
+            if l["seed"] % 11 == 0:
+                # a detected line that is only one or two pixels long (still has baseline, polygon and heights)
+                b0 = np.asarray(line.baseline, dtype=np.float64)[0]
+                line.baseline = np.asarray([b0, b0 + [1.0 + (l["seed"] % 2), 0.0]])
+                line.polygon = np.asarray([b0 + [0, -8], b0 + [2, -8], b0 + [2, 3], b0 + [0, 3]])
             lines.append(line)
             n += 1
         if lines:
